@@ -4,7 +4,7 @@
 seed=$1; shift
 props="$@"; [ -z "$props" ] && props=${seed%%-*}
 cd /repo || exit 2
-if ! git apply --3way /verif/seeded/$seed/patch.diff >/tmp/tryseed.log 2>&1; then echo "APPLY FAILED: $(tail -2 /tmp/tryseed.log)"; git reset -q --hard HEAD; exit 3; fi
+if ! git apply --3way $( [ -f /verif/seeded/$seed/patch.head.diff ] && echo /verif/seeded/$seed/patch.head.diff || echo /verif/seeded/$seed/patch.diff ) >/tmp/tryseed.log 2>&1; then echo "APPLY FAILED: $(tail -2 /tmp/tryseed.log)"; git reset -q --hard HEAD; exit 3; fi
 if ! go build ./... >/tmp/tryseed.build 2>&1; then echo "BUILD FAILED"; head -5 /tmp/tryseed.build; fi
 for p in $props; do
   out=$(cd /verif && ./check $p quick 2>&1); rc=$?
